@@ -589,11 +589,23 @@ func runC15(c *mon.Ctx) {
 
 		var lay *sfnt.Layouter
 		var err error
+		gsubBefore, gposBefore := fmt.Sprint(gsubOn), fmt.Sprint(gposOn)
+		defGsub, defGpos := fmt.Sprint(gtab.GsubDefaultFeatures), fmt.Sprint(gtab.GposDefaultFeatures)
 		if k.Guard("NewLayouter", func() { lay, err = f.NewLayouter(lang, gsubOn, gposOn) }) {
 			return
 		}
 		if err != nil {
 			k.Fail("mismatch", "layout:newlayouter-error", "NewLayouter: %v (%s)", err, desc)
+			return
+		}
+		// the feature switches are the caller's, the defaults everybody's
+		k.Eval()
+		if a, b := fmt.Sprint(gsubOn), fmt.Sprint(gposOn); a != gsubBefore || b != gposBefore {
+			k.Fail("mismatch", "layout:callers-feature-map-changed", "NewLayouter changed the feature maps it was given: gsub %s -> %s, gpos %s -> %s (%s)", gsubBefore, a, gposBefore, b, desc)
+			return
+		}
+		if a, b := fmt.Sprint(gtab.GsubDefaultFeatures), fmt.Sprint(gtab.GposDefaultFeatures); a != defGsub || b != defGpos {
+			k.Fail("mismatch", "layout:default-features-changed", "NewLayouter changed the package's default features: gsub %s -> %s, gpos %s -> %s (%s)", defGsub, a, defGpos, b, desc)
 			return
 		}
 		var got []glyph.Info
